@@ -788,15 +788,101 @@ def judge(sc, exp, obs, proj):
     return "ok", None
 
 
+def split_case(case):
+    """CASE line -> TLC's expectations per call, oldest first (a two-call behaviour carries the first
+    call as `prev`)"""
+    prev = case.get("prev") or {"pc": "none"}
+    return ([prev] if prev.get("pc", "none") != "none" else []) + [case]
+
+
+def build_multi(rng, ins, canonical=False, maxlen=6, use_diff=None, inject_modes=None):
+    """concretize one or two consecutive calls: one table of texts for all content ids, the local file
+    of the first call, one repository state per call.  A later call under rep = same / mirror
+    re-publishes the earlier patches unchanged (a published patch never changes)."""
+    ids, forced = [], {}
+    for i in ins:
+        ids += list(i["hist"])
+        forced[i["hist"][-1]] = i["nw"]
+    texts = make_texts(rng, ids, None, max([maxlen] + list(forced.values())), forced)
+    foreign = make_foreign(rng, texts, maxlen)
+    style = 0 if canonical else rng.randint(0, 1)
+    runs, base = [], None
+    for r, inp in enumerate(ins):
+        mode = (inject_modes or ["wrap"] * len(ins))[r]
+        if r < len(ins) - 1:
+            mode = "wrap"           # a forked child would not carry module state into the next call
+        sc = build_scenario(rng, inp, canonical=canonical, maxlen=maxlen, use_diff=use_diff, inject_mode=mode,
+                            texts=texts, foreign=foreign, style=style,
+                            base=base if inp.get("rep") in ("same", "mirror") else None)
+        runs.append(sc)
+        base = sc
+    return {"runs": runs}
+
+
+def run_multi(workdir, msc, fix_input=False):
+    """execute the calls of the scenario one after the other IN THIS PROCESS (same imported module,
+    same local path; the repository files are rewritten in between -- in place when the URL stays,
+    in a second directory when the call uses another URL).  Returns [(view, obs, proj)] per call.
+    fix_input: (trace recording) the local0 id of a later call is what the previous call left."""
+    casedir = proc_dir(workdir)
+    out, start, prev_local = [], None, None
+    for r, sc in enumerate(msc["runs"]):
+        view = dict(sc)
+        if r > 0:
+            view["local0"] = start
+            if fix_input:
+                view["in"] = dict(sc["in"], local0=prev_local)
+        repo_name = "repo" if sc["in"].get("url", 1) == 1 else "repo2"
+        obs = execute(casedir, view, repo_name=repo_name, keep_local=(r > 0))
+        proj = project(view, obs)
+        start, prev_local = obs["local"], proj["local"]
+        out.append((view, obs, proj))
+    return out
+
+
+def _summary(view, obs, proj):
+    i = view["in"]
+    return "%slocal0=%s fault=%s/%d hist=%r h0=%d nw=%d flav=%s inject=%s -> %s%s local=%s" % (
+        ("[%s url%d] " % (i["rep"], i.get("url", 1))) if i.get("rep", "first") != "first" else "",
+        name_of(view, i["local0"]), i["fault"]["k"], i["fault"]["i"], i["hist"], i["h0"], i["nw"], "+".join(i["flav"]),
+        view["inject"].get("mode"), proj["pc"], ("(" + obs["exc"] + ")") if proj["pc"] == "raised" else "",
+        name_of(view, proj["local"]))
+
+
+def judge_multi(msc, exps, res):
+    """per-call comparison with TLC's expectations; stops at the first call whose file-system state is
+    not the one the model continues from"""
+    status, msg, summaries, excs = "ok", None, [], []
+    for r, ((view, obs, proj), exp) in enumerate(zip(res, exps)):
+        st, m = judge(view, exp, obs, proj)
+        summaries.append(_summary(view, obs, proj))
+        if obs["exc"] != "none":
+            excs.append(obs["exc"])
+        if st != "ok" and status == "ok":
+            status, msg = st, (("call %d of %d: " % (r + 1, len(exps))) if len(exps) > 1 else "") + m
+        if st == "violation" or proj["local"] != exp["local"]:
+            break
+    return {"status": status, "msg": msg, "scenario": msc, "summary": "  ;  THEN  ".join(summaries), "excs": excs,
+            "ncalls": len(exps)}
+
+
+def run_case(workdir, rng, case, variant, opts):
+    exps = split_case(case)
+    msc = build_multi(rng, [e["in"] for e in exps], canonical=(variant == "canonical"), maxlen=opts.get("maxlen", 6),
+                      use_diff=workdir if opts.get("diff_e") and variant != "canonical" else None,
+                      inject_modes=["wrap"] * (len(exps) - 1) + ["rlimit" if variant == "rlimit" else "wrap"])
+    return judge_multi(msc, exps, run_multi(workdir, msc))
+
+
 def replay_chunk(args):
     """pool worker: concretize and replay a list of CASE lines.  args = (workdir, seed, tasks, opts);
-    a task is (index, case, variant) with variant = canonical | random | rlimit"""
+    a task is (index, case, variant) with variant = canonical | random<j> | rlimit"""
     import random
     workdir, seed, tasks, opts = args
     out = []
     for (idx, case, variant) in tasks:
-        rng = random.Random("c19-%s-%d-%s" % (seed, idx, variant))
-        res = run_case(workdir, rng, case, variant, opts, tag="r%d%s" % (idx, variant[0]))
+        rng = random.Random("c19-%s-%s-%s" % (seed, idx, variant))
+        res = run_case(workdir, rng, case, variant, opts)
         res["idx"], res["variant"] = idx, variant
         if res["status"] != "violation":
             res.pop("scenario", None)
@@ -804,27 +890,23 @@ def replay_chunk(args):
     return out
 
 
-def run_case(workdir, rng, case, variant, opts, tag):
-    sc = build_scenario(rng, case["in"], canonical=(variant == "canonical"), maxlen=opts.get("maxlen", 6),
-                        use_diff=workdir if opts.get("diff_e") and variant != "canonical" else None,
-                        inject_mode="rlimit" if variant == "rlimit" else "wrap")
-    return run_scenario(workdir, sc, case, tag)
-
-
-def run_scenario(workdir, sc, case, tag):
-    casedir = proc_dir(workdir)
-    obs = execute(casedir, sc)
-    proj = project(sc, obs)
-    status, msg = judge(sc, case, obs, proj)
-    summary = "%s local0=%s fault=%s/%d hist=%r h0=%d nw=%d flav=%s inject=%s -> %s%s local=%s" % (
-        tag, name_of(sc, sc["in"]["local0"]), sc["in"]["fault"]["k"], sc["in"]["fault"]["i"], sc["in"]["hist"],
-        sc["in"]["h0"], sc["in"]["nw"], "+".join(sc["in"]["flav"]), sc["inject"].get("mode"),
-        proj["pc"], ("(" + obs["exc"] + ")") if proj["pc"] == "raised" else "", name_of(sc, proj["local"]))
-    return {"status": status, "msg": msg, "scenario": sc, "summary": summary, "exc": obs["exc"],
-            "nevents": len(proj["events"])}
-
-
 # ------------------------------------------------------------------ recording traces (code -> spec)
+
+def random_fault(rng, n, nw):
+    kinds = ["none", "none", "wrongResultHash", "indexMissing", "indexGarbage", "indexEmpty", "renameFails",
+             "writeFails", "writeFails", "writeFails", "writeFails"]
+    if n >= 1:
+        kinds += ["patchCorrupt", "patchTruncated", "badLastPatch"] * 2
+    k = rng.choice(kinds)
+    i = 0
+    if k in ("patchCorrupt", "patchTruncated"):
+        i = rng.randint(1, n)
+    elif k == "badLastPatch":
+        i = n
+    elif k == "writeFails":
+        i = rng.choice([0, 1, nw, nw + 1, rng.randint(0, nw + 1), rng.randint(0, nw + 1)])
+    return {"k": k, "i": i}
+
 
 def random_input(rng, flavour_sets, maxv=8, maxlines=30):
     nver = rng.randint(1, maxv)
@@ -839,48 +921,59 @@ def random_input(rng, flavour_sets, maxv=8, maxlines=30):
     nw = 0 if rng.random() < 0.07 else rng.randint(1, maxlines)
     h0 = 0 if rng.random() < 0.6 else rng.randint(0, n)
     local0 = rng.choice([ABSENT, FOREIGN, FOREIGN] + hist + hist)
-    kinds = ["none", "none", "wrongResultHash", "indexMissing", "indexGarbage", "indexEmpty", "renameFails",
-             "writeFails", "writeFails", "writeFails", "writeFails"]
-    if n >= 1:
-        kinds += ["patchCorrupt", "patchTruncated", "badLastPatch"] * 2
-    k = rng.choice(kinds)
-    i = 0
-    if k in ("patchCorrupt", "patchTruncated"):
-        i = rng.randint(1, n)
-    elif k == "badLastPatch":
-        i = n
-    elif k == "writeFails":
-        i = rng.choice([0, 1, nw, nw + 1, rng.randint(0, nw + 1), rng.randint(0, nw + 1)])
-    return {"hist": hist, "h0": h0, "local0": local0, "fault": {"k": k, "i": i}, "nw": nw,
-            "flav": list(rng.choice(flavour_sets))}
+    return {"hist": hist, "h0": h0, "local0": local0, "fault": random_fault(rng, n, nw), "nw": nw,
+            "flav": list(rng.choice(flavour_sets)), "url": 1, "rep": "first"}
+
+
+def random_next_input(rng, prev, maxlines=30):
+    """the repository moves on before the next call of the same process"""
+    kind = rng.choice(["same", "same", "same", "mirror", "fresh"])
+    hist = list(prev["hist"])
+    c = max(hist) + 1 if rng.random() < 0.75 else rng.choice(hist)
+    hist2 = [c] if kind == "fresh" else hist + [c]
+    if c == prev["hist"][-1]:
+        nw = prev["nw"]                     # the same text has the same number of lines
+    else:
+        nw = 0 if rng.random() < 0.07 else rng.randint(1, maxlines)
+    n = len(hist2) - 1
+    h0 = 0 if rng.random() < 0.6 else rng.randint(0, n)
+    return {"hist": hist2, "h0": h0, "local0": ABSENT,      # fixed when the previous call has ended
+            "fault": random_fault(rng, n, nw) if rng.random() < 0.5 else {"k": "none", "i": 0}, "nw": nw,
+            "flav": prev["flav"], "url": prev["url"] if kind == "same" else 3 - prev["url"], "rep": kind}
 
 
 def record_one(workdir, seed, idx, opts):
-    """one random history executed on the real function; returns (trace, scenario)"""
+    """one random history (and, for half of them, a second call after the repository has moved on)
+    executed on the real function in this process; returns (trace, scenario)"""
     import random
     rng = random.Random("c19-trace-%s-%d" % (seed, idx))
-    inp = random_input(rng, opts["flavour_sets"], opts.get("maxv", 8), opts.get("maxlines", 30))
+    two = rng.random() < 0.5
+    ins = [random_input(rng, opts["flavour_sets"], opts.get("maxv", 8) - (1 if two else 0), opts.get("maxlines", 30))]
+    if two:
+        ins.append(random_next_input(rng, ins[0], opts.get("maxlines", 30)))
     mode = "rlimit" if rng.random() < 0.6 else "wrap"
     LONG[0] = rng.random() < 0.12
     try:
-        sc = build_scenario(rng, inp, canonical=False, maxlen=max(4, min(30, inp["nw"] + 4)),
-                            use_diff=workdir if opts.get("diff_e") else None, inject_mode=mode)
+        msc = build_multi(rng, ins, canonical=False, maxlen=max(4, min(30, max(i["nw"] for i in ins) + 4)),
+                          use_diff=workdir if opts.get("diff_e") else None, inject_modes=["wrap"] * (len(ins) - 1) + [mode])
     finally:
         LONG[0] = False
-    return trace_of(workdir, sc, "t%d" % idx), sc
+    return trace_multi(workdir, msc), msc
 
 
-def trace_of(workdir, sc, tag):
-    casedir = proc_dir(workdir)
-    obs = execute(casedir, sc)
-    proj = project(sc, obs)
-    inp = dict(sc["in"])
-    inj = sc["inject"]
+def trace_multi(workdir, msc):
+    res = run_multi(workdir, msc, fix_input=True)
+    return {"runs": [_trace_entry(view, obs, proj) for (view, obs, proj) in res]}
+
+
+def _trace_entry(view, obs, proj):
+    inp = dict(view["in"])
+    inj = view["inject"]
     note = ""
     if inj.get("mode") == "wrap" and not obs["fired"]:
         # the fault was armed but the execution never reached it: no fault happened in this execution
         inp["fault"] = {"k": "none", "i": 0}
-        note = "armed fault %r not reached" % (sc["in"]["fault"],)
+        note = "armed fault %r not reached" % (view["in"]["fault"],)
     fine = inj.get("mode") != "rlimit"
     return {"in": inp, "obs": {"fs": fine, "net": fine},
             "events": proj["events"] if fine else [],
